@@ -70,8 +70,8 @@ pub fn braille_mathml(mathml: Element, nav_node_id: &str) -> Result<(String, usi
         let end = braille.rfind(is_highlighted);
         if start.is_none() {
             assert!(end.is_none());
-            let end = braille.len();
-            return (braille, 0, end/3);
+            let end = braille.chars().count();      // not braille.len()/3 -- codes such as ASCIIMath and LaTeX have chars that aren't three bytes
+            return (braille, 0, end);
         };
 
         let end = end.unwrap();         // always exists if start exists
